@@ -544,5 +544,16 @@ func (r *Registry) RoundTrip(req *http.Request) (*http.Response, error) {
 		r.Log(ex)
 	}
 	return &http.Response{StatusCode: status, Status: fmt.Sprintf("%d %s", status, http.StatusText(status)), Header: h,
-		Body: io.NopCloser(bytes.NewReader(out)), ContentLength: length, Request: req, Proto: "HTTP/1.1", ProtoMajor: 1, ProtoMinor: 1}, nil
+		Body: io.NopCloser(&eofReader{r: bytes.NewReader(out)}), ContentLength: length, Request: req, Proto: "HTTP/1.1", ProtoMajor: 1, ProtoMinor: 1}, nil
+}
+
+// eofReader hands out io.EOF together with the last bytes, as net/http does for a body of known length.
+type eofReader struct{ r *bytes.Reader }
+
+func (e *eofReader) Read(p []byte) (int, error) {
+	n, err := e.r.Read(p)
+	if err == nil && e.r.Len() == 0 && n > 0 {
+		err = io.EOF
+	}
+	return n, err
 }
